@@ -842,5 +842,220 @@ theorem dictLoop_mem_keys (env : Env) (par : Node) (k' : Key) :
           | error e => rw [hm] at h; cases h
           | ok m => rw [hm] at h; exact fin _ _ (keys_setKey _ _ _) h
 
+/-! ## Array-of-Hashes DEEP merges by identity key -/
+
+theorem find?_decomp (p : Node → Bool) (new : Node) : ∀ (xs : List Node) (lh : Node), xs.find? p = some lh →
+    ∃ pre post, xs = pre ++ lh :: post ∧ (∀ x ∈ pre, p x = false) ∧ p lh = true ∧
+      replaceFirst p new xs = pre ++ new :: post := by
+  intro xs
+  induction xs with
+  | nil => intro lh h; cases h
+  | cons x rest ih =>
+    intro lh h
+    simp only [List.find?_cons] at h
+    cases hp : p x with
+    | true =>
+      rw [hp] at h; cases h
+      exact ⟨[], rest, rfl, (by intro y hy; cases hy), hp, (by simp [replaceFirst, hp])⟩
+    | false =>
+      rw [hp] at h
+      obtain ⟨pre, post, e, hpre, hlh, hrep⟩ := ih lh h
+      refine ⟨x :: pre, post, by rw [e]; rfl, ?_, hlh, ?_⟩
+      · intro y hy
+        rcases List.mem_cons.mp hy with rfl | hy
+        · exact hp
+        · exact hpre y hy
+      · simp [replaceFirst, hp, hrep]
+
+theorem find?_of_decomp (p : Node → Bool) (pre : List Node) (lh : Node) (post : List Node)
+    (hpre : ∀ x ∈ pre, p x = false) (hlh : p lh = true) : (pre ++ lh :: post).find? p = some lh := by
+  induction pre with
+  | nil => simp [hlh]
+  | cons x rest ih =>
+    simp only [List.cons_append, List.find?_cons, hpre x (List.mem_cons_self)]
+    exact ih (fun y hy => hpre y (List.mem_cons_of_mem _ hy))
+
+/-- `aohDeepStep` on a record is exactly `Spec.AohStep`. -/
+theorem aohDeepStep_iff (env : Env) (idKey : Key) (litems : List Node) (a : Option Str)
+    (es : List (Key × Node)) (out : List Node) :
+    aohDeepStep env idKey litems (.map a es) = .ok out ↔ AohStep env idKey litems a es out := by
+  simp only [aohDeepStep, recordGet]
+  constructor
+  · intro h
+    cases hid : lookupKey idKey es with
+    | none => rw [hid] at h; cases h
+    | some idv =>
+      rw [hid] at h
+      simp only at h
+      cases hf : litems.find? (recordMatches env idKey (typedNode env idv)) with
+      | none =>
+        rw [hf] at h; cases h
+        refine AohStep.append idv hid ?_
+        intro x hx
+        have := List.find?_eq_none.mp hf x hx
+        simpa using this
+      | some lh =>
+        rw [hf] at h
+        simp only at h
+        have hmd : dictWrap lh (dictLoop env (.map a es) es) = mergeDicts env lh (.map a es) es := rfl
+        rw [hmd] at h
+        cases hm : mergeDicts env lh (.map a es) es with
+        | error e => rw [hm] at h; cases h
+        | ok m =>
+          rw [hm] at h
+          obtain ⟨pre, post, e, hpre, hlh, hrep⟩ := find?_decomp _ m litems lh hf
+          simp only [hrep] at h; cases h
+          exact AohStep.merge idv pre lh post m hid e hpre hlh hm
+  · intro h
+    cases h with
+    | append idv hid hall =>
+      rw [hid]
+      simp only
+      have : litems.find? (recordMatches env idKey (typedNode env idv)) = none := by
+        apply List.find?_eq_none.mpr
+        intro x hx; simp [hall x hx]
+      rw [this]
+    | merge idv pre lh post m hid e hpre hlh hm =>
+      rw [hid]
+      simp only
+      have hf := find?_of_decomp _ pre lh post hpre hlh
+      rw [← e] at hf
+      rw [hf]
+      simp only
+      have hmd : dictWrap lh (dictLoop env (.map a es) es) = mergeDicts env lh (.map a es) es := rfl
+      rw [hmd, hm]
+      obtain ⟨pre', post', e', hpre', hlh', hrep'⟩ := find?_decomp _ m litems lh hf
+      simp only [hrep']
+      -- the decomposition at the first match is unique
+      have : pre' = pre ∧ post' = post := by
+        rw [e] at e'
+        clear hf hrep' hm e
+        induction pre generalizing pre' with
+        | nil =>
+          cases pre' with
+          | nil => simp at e'; exact ⟨rfl, e'.symm⟩
+          | cons y ys =>
+            simp only [List.nil_append, List.cons_append, List.cons.injEq] at e'
+            have := hpre' y (List.mem_cons_self)
+            rw [← e'.1, hlh] at this; cases this
+        | cons x xs ih =>
+          cases pre' with
+          | nil =>
+            simp only [List.nil_append, List.cons_append, List.cons.injEq] at e'
+            have := hpre x (List.mem_cons_self)
+            rw [e'.1, hlh'] at this; cases this
+          | cons y ys =>
+            simp only [List.cons_append, List.cons.injEq] at e'
+            obtain ⟨h1, h2⟩ := ih (fun z hz => hpre z (List.mem_cons_of_mem _ hz)) ys e'.2
+              (fun z hz => hpre' z (List.mem_cons_of_mem _ hz))
+            exact ⟨by rw [e'.1, h1], h2⟩
+      rw [this.1, this.2]
+
+theorem aohDeepStep_nonmap (env : Env) (idKey : Key) (litems : List Node) (ele : Node)
+    (h : isMap ele = false) : aohDeepStep env idKey litems ele = .error .merge := by
+  cases ele <;> simp_all [aohDeepStep, isMap]
+
+/-- `aohDeepLoop` is exactly `Spec.AohDeep`. -/
+theorem aohDeepLoop_iff (env : Env) (idKey : Key) : ∀ (eles litems out : List Node),
+    aohDeepLoop env idKey eles litems = .ok out ↔ AohDeep env idKey litems eles out := by
+  intro eles
+  induction eles with
+  | nil =>
+    intro litems out
+    simp only [aohDeepLoop]
+    constructor
+    · intro h; cases h; exact AohDeep.nil _
+    · intro h; cases h; rfl
+  | cons ele rest ih =>
+    intro litems out
+    simp only [aohDeepLoop]
+    constructor
+    · intro h
+      cases hs : aohDeepStep env idKey litems ele with
+      | error e => rw [hs] at h; cases h
+      | ok l1 =>
+        rw [hs] at h
+        simp only at h
+        cases ele with
+        | map a es => exact AohDeep.cons _ l1 _ a es rest ((aohDeepStep_iff ..).mp hs) ((ih _ _).mp h)
+        | scalar a v => simp [aohDeepStep] at hs
+        | seq a v => simp [aohDeepStep] at hs
+        | set a v => simp [aohDeepStep] at hs
+    · intro h
+      cases h with
+      | cons _ l1 _ a es _ hstep hrest =>
+        rw [(aohDeepStep_iff ..).mpr hstep]
+        exact (ih _ _).mpr hrest
+
+
+theorem getElem?_replace_ne {α : Type} (pre post : List α) (a b : α) (i : Nat) (h : i ≠ pre.length) :
+    (pre ++ b :: post)[i]? = (pre ++ a :: post)[i]? := by
+  simp only [List.getElem?_append]
+  split
+  · rfl
+  · have : i - pre.length = (i - pre.length - 1) + 1 := by omega
+    rw [this]; simp
+
+theorem AohStep_length {env : Env} {idKey : Key} {litems : List Node} {a : Option Str}
+    {es : List (Key × Node)} {out : List Node} (h : AohStep env idKey litems a es out) :
+    litems.length ≤ out.length ∧ out.length ≤ litems.length + 1 := by
+  cases h with
+  | append idv _ _ => simp
+  | merge idv pre lh post m _ e _ _ _ => subst e; simp
+
+/-- A left-hand element that does not carry the record's identity stays where it is. -/
+theorem AohStep_keeps {env : Env} {idKey : Key} {litems : List Node} {a : Option Str}
+    {es : List (Key × Node)} {out : List Node} (h : AohStep env idKey litems a es out)
+    (i : Nat) (x : Node) (hx : litems[i]? = some x)
+    (hno : ∀ idv, lookupKey idKey es = some idv → recordMatches env idKey (typedNode env idv) x = false) :
+    out[i]? = some x := by
+  cases h with
+  | append idv _ _ =>
+    have hi : i < litems.length := by
+      cases Nat.lt_or_ge i litems.length with
+      | inl h => exact h
+      | inr h => rw [List.getElem?_eq_none h] at hx; cases hx
+    rw [List.getElem?_append_left hi]; exact hx
+  | merge idv pre lh post m hid e _ hlh _ =>
+    subst e
+    have hne : i ≠ pre.length := by
+      intro hi
+      subst hi
+      simp at hx
+      subst hx
+      rw [hno idv hid] at hlh; cases hlh
+    rw [getElem?_replace_ne pre post lh m i hne]; exact hx
+
+theorem AohDeep_length {env : Env} {idKey : Key} {litems ritems out : List Node}
+    (h : AohDeep env idKey litems ritems out) :
+    litems.length ≤ out.length ∧ out.length ≤ litems.length + ritems.length := by
+  induction h with
+  | nil l => simp
+  | cons l l1 out a es rest hstep _ ih =>
+    have := AohStep_length hstep
+    simp only [List.length_cons]; omega
+
+theorem AohDeep_keeps {env : Env} {idKey : Key} {litems ritems out : List Node}
+    (h : AohDeep env idKey litems ritems out) (i : Nat) (x : Node) (hx : litems[i]? = some x)
+    (hno : ∀ a es idv, Node.map a es ∈ ritems → lookupKey idKey es = some idv →
+      recordMatches env idKey (typedNode env idv) x = false) :
+    out[i]? = some x := by
+  induction h with
+  | nil l => exact hx
+  | cons l l1 out a es rest hstep _ ih =>
+    apply ih (AohStep_keeps hstep i x hx (fun idv hid => hno a es idv (List.mem_cons_self) hid))
+    intro a' es' idv hmem hid
+    exact hno a' es' idv (List.mem_cons_of_mem _ hmem) hid
+
+/-- A successful `_merge_dicts` into a mapping is the loop's final state: entries, then what is still
+buffered. -/
+theorem mergeDicts_shape (env : Env) (la : Option Str) (l : List (Key × Node)) (par : Node)
+    (r : List (Key × Node)) (m : Node) (h : mergeDicts env (.map la l) par r = .ok m) :
+    ∃ st, dictLoop env par r ⟨l, [], 0⟩ = .ok st ∧ m = .map la (st.entries ++ st.buffer) := by
+  unfold mergeDicts dictWrap at h
+  simp only at h
+  cases hl : dictLoop env par r ⟨l, [], 0⟩ with
+  | error e => rw [hl] at h; cases h
+  | ok st => rw [hl] at h; cases h; exact ⟨st, rfl, rfl⟩
 
 end Ypv.Merge
